@@ -49,13 +49,24 @@ def main(argv):
         print("the implementation does not build:", str(e)[:3000])
         ctx.violation("build", "the working tree does not build", dict(kind="build", log=str(e)[:5000]), found_input=False)
         return ctx.finish(proof, "none: build failed", ASSUME["default"])
-    # 3. correspondence + property-level checks
+    # 3. correspondence + property-level checks (the harness binaries and a sample of the real-binary runs write Go coverage counters)
+    import tempfile, shutil
+    covdir = tempfile.mkdtemp(prefix="hv-cov.", dir="/var/tmp")
+    run.COVDIR = covdir
     if coq["ok"]:
         try:
             rule = getattr(props, "check_" + pid)(ctx) or rule
         except Exception as e:
             traceback.print_exc()
             ctx.violation("harness-error", "the check itself failed: %r" % (e,), dict(kind="harness", trace=traceback.format_exc()), found_input=False)
+    try:
+        anchored = [a for a in core.anchored_files(pid)]
+        cov = build.coverage_report(covdir, anchored)
+        if cov is not None: ctx.notes["go_statement_coverage_of_anchored_files"] = cov
+    except Exception as e:
+        ctx.notes["go_statement_coverage_of_anchored_files"] = dict(error=repr(e))
+    finally:
+        run.COVDIR = None; shutil.rmtree(covdir, ignore_errors=True)
     if getattr(ctx, "changed_constants", None) and not ctx.violations:
         # a constant the theorems of this property are stated about no longer has the value the model (and hence the proofs) use,
         # and the correspondence above found no input on which the behaviour differs
